@@ -193,30 +193,56 @@ def do_deps(prog):
     return rep
 
 
+def lifetime_body(root, case, prog, steps, memo, li, emit):
+    world.install_seams(case["seed"] + li)
+    side = world.SideChannel()
+    if memo:
+        world.make_env(root, world.make_storage("filesystem", root + "/store", cache_mb=2 if case.get("cache") else None))
+    else:
+        import twosigma.memento as mm
+        mm.memento_function = passthrough
+    import_program(prog, root)
+    cur = prog
+    for si, st in steps:
+        if st["op"] == "edit":
+            new, touched = apply_with_discipline(cur, st["edit"], st["n"])
+            deliver(cur, new, touched, st["edit"], st["delivery"])
+            cur = new
+        elif st["op"] == "call":
+            nd = cur["nodes"][st["node"]] if st["node"] < len(cur["nodes"]) else None
+            if nd is None or nd["kind"] != "memento" or nd["explicit"] is not None:
+                continue
+            emit({"si": si, "call": do_call(cur, st, memo, side)})
+        elif st["op"] == "deps" and memo:
+            emit({"si": si, "deps": do_deps(cur)})
+
+
 def run_lifetime(root, case, prog, steps, memo, li):
+    if case.get("fresh_interpreters"):
+        return run_lifetime_fresh(root, case, prog, steps, memo, li)
+
     def body(emit):
-        world.install_seams(case["seed"] + li)
-        side = world.SideChannel()
-        if memo:
-            world.make_env(root, world.make_storage("filesystem", root + "/store", cache_mb=2 if case.get("cache") else None))
-        else:
-            import twosigma.memento as mm
-            mm.memento_function = passthrough
-        import_program(prog, root)
-        cur = prog
-        for si, st in steps:
-            if st["op"] == "edit":
-                new, touched = apply_with_discipline(cur, st["edit"], st["n"])
-                deliver(cur, new, touched, st["edit"], st["delivery"])
-                cur = new
-            elif st["op"] == "call":
-                nd = cur["nodes"][st["node"]] if st["node"] < len(cur["nodes"]) else None
-                if nd is None or nd["kind"] != "memento" or nd["explicit"] is not None:
-                    continue
-                emit({"si": si, "call": do_call(cur, st, memo, side)})
-            elif st["op"] == "deps" and memo:
-                emit({"si": si, "deps": do_deps(cur)})
+        lifetime_body(root, case, prog, steps, memo, li, emit)
     return core.lifetime(body)
+
+
+def run_lifetime_fresh(root, case, prog, steps, memo, li):
+    """The lifetime is a fresh interpreter with its own PYTHONHASHSEED (thorough tier)."""
+    import json
+    import subprocess
+    job = {"root": root, "case": {k: case[k] for k in ("seed", "cache")}, "prog": prog, "steps": steps, "memo": memo, "li": li}
+    jp = "%s/job-%d-%d.json" % (root, li, int(memo))
+    op = jp + ".out"
+    with open(jp, "w") as f:
+        json.dump(job, f)
+    hs = core.stream(case["seed"] + li, "hashseed-%d" % int(memo)).randrange(1, 4294967295)
+    env = dict(os.environ, PYTHONHASHSEED=str(hs), PYTHONDONTWRITEBYTECODE="1")
+    r = subprocess.run([sys.executable, "-m", "sim.evolife", jp, op], cwd=core.VERIF, env=env, capture_output=True, text=True,
+                       timeout=core.LIFETIME_TIMEOUT * 3)
+    if r.returncode != 0 or not os.path.exists(op):
+        raise core.HarnessError("fresh-interpreter lifetime failed: %s" % (r.stdout + r.stderr)[-1500:])
+    raw = open(op).read().replace(root, "<root>")
+    return [json.loads(line) for line in raw.splitlines()], 0
 
 
 def qn(prog, nid):
